@@ -150,12 +150,12 @@ def classify(op_line, impl_line, model_line):
     op = (op_line.split() or ["?"])[0]
     if impl_line.startswith("<missing") or impl_line == "crash":
         return "krt:crash", "the real krt collections panicked or the harness stopped"
-    if op in ("stream", "ustream", "pstream", "dstream"):
+    if op in ("stream", "ustream", "pstream", "dstream", "xstream"):
         kind = "event" if "reject:event" in model_line else ("contents" if "reject:contents" in model_line else "other")
         return ("krt:stream:%s" % kind,
                 "a subscriber's recorded event stream is rejected by the verified monitor (%s)" % model_line)
-    if op in ("list", "get", "lookup", "ulist", "ulookup", "flookup", "vlookup"):
-        return ("krt:%s" % ("lookup" if op in ("flookup", "vlookup") else op.lstrip("u")),
+    if op in ("list", "get", "lookup", "ulist", "ulookup", "flookup", "vlookup", "ilist", "iget"):
+        return ("krt:%s" % ("lookup" if op in ("flookup", "vlookup") else op.lstrip("ui")),
                 "%s on the real collection differs from the transformation applied to the current inputs" % op)
     return "krt:%s" % op, "model and implementation answer differently to '%s'" % op_line
 
